@@ -14,7 +14,8 @@ Section Stream.
   (* Outcome of one decoder call on the receive buffer. *)
   Inductive dres :=
   | DMsg (m : M) (rest : list N)      (* a message; [rest] is what stays in the buffer *)
-  | DNeed                             (* Ok(None): wait for more bytes, buffer untouched *)
+  | DNeed (rest : list N)             (* Ok(None): wait for more bytes; [rest] is what stays in the buffer
+                                         (the RTR decoder may have dropped complete PDUs it does not use) *)
   | DErr (e : E) (rest : list N)      (* protocol error: the session is torn down *)
   | DPanic.
 
@@ -36,7 +37,7 @@ Section Stream.
     | S f =>
       match dec buf with
       | DPanic => None
-      | DNeed => Some ([EvNeed (length buf)], Pending buf)
+      | DNeed rest => Some ([EvNeed (length rest)], Pending rest)
       | DErr e rest => Some ([EvErr e (length rest)], Stopped)
       | DMsg m rest =>
         if Nat.eqb (length rest) (length buf) then Some ([EvMsg m (length rest); EvSpin], Stopped)
